@@ -283,6 +283,14 @@ def proposeATr (n : ℕ) (delta : Rat) (step sd : Fin n → Rat) : Rat :=
   | some f => cand * f
   | none => -1
 
+/-- the UNVERIFIED proposal for a square root that is never too small: the binary64 root of the exact argument, pushed
+up by 2^-50 in relative terms when its square falls short; used through `Tcg.checkedSqrtUp`, which checks `x ≤ r²` exactly -/
+def proposeSqrtUp (x : Rat) : Rat :=
+  let r := floatToRat (Float.sqrt (ratToFloat x))
+  if x ≤ r * r then r else
+  let r1 := r * (1 + 1 / 2 ^ 50)
+  if x ≤ r1 * r1 then r1 else r * (1 + 1 / 2 ^ 30)
+
 def doTcg (n fuel : ℕ) (parts : List String) : String :=
   match parts with
   | [g, H, lo, hi, d] =>
@@ -387,7 +395,7 @@ def doCtcg (n m p fuel fuel2 : ℕ) (imp : Bool) (parts : List String) : String 
       let r := runCtcgPasses P Q O fuel (Array.ofFn s0.step) (Array.ofFn s0.grad) (Array.ofFn s0.sd) (Array.ofFn s0.freeL)
         (Array.ofFn s0.freeU) (Array.ofFn s0.freeUb) (Array.ofFn s0.resid) s0.k s0.reduct
       let R : Cobyqa.Tcg.IParams Rat :=
-        { sqrtO := fun x => floatToRat (Float.sqrt (ratToFloat x)), tiny := 0, rtol := 1 / 100000000,
+        { sqrtO := Cobyqa.Tcg.checkedSqrtUp proposeSqrtUp, tiny := 0, rtol := 1 / 100000000,
           nsOf := fun t => (17 * t + 3).floor.toNat }
       -- `cfull`: second phase, rescaling, safeguard (`cimprove`)
       let second := imp && r.2 && decide (O.nAct r.1.freeL r.1.freeU r.1.freeUb < n)
@@ -487,7 +495,7 @@ def doNtcg (n m p fuel fuel2 : ℕ) (imp : Bool) (parts : List String) : String 
       let r := runNtcgPasses P Q O fuel (Array.ofFn s0.step) (Array.ofFn s0.gs) (Array.ofFn s0.gt) (Array.ofFn s0.sds) (Array.ofFn s0.sdt)
         (Array.ofFn s0.freeL) (Array.ofFn s0.freeU) (Array.ofFn s0.freeSlack) (Array.ofFn s0.freeUb) (Array.ofFn s0.resid) s0.k s0.reduct
       let R : Cobyqa.Tcg.IParams Rat :=
-        { sqrtO := fun x => floatToRat (Float.sqrt (ratToFloat x)), tiny := 0, rtol := 1 / 100000000,
+        { sqrtO := Cobyqa.Tcg.checkedSqrtUp proposeSqrtUp, tiny := 0, rtol := 1 / 100000000,
           nsOf := fun t => (17 * t + 3).floor.toNat }
       -- `nfull`: the second phase and its safeguard (`nimprove`)
       let st : Fin n → Rat :=
@@ -520,7 +528,7 @@ def doTcg2 (n fuel fuel2 : ℕ) (imp : Bool) (parts : List String) : String :=
           tiny := 0, rtol := 1 / 100000000 }
       -- second phase: `np.sqrt` as the binary64 square root of the exact argument, `int(17 t_bd + 3)` as a floor
       let R : Cobyqa.Tcg.IParams Rat :=
-        { sqrtO := fun x => floatToRat (Float.sqrt (ratToFloat x)), tiny := 0, rtol := 1 / 100000000,
+        { sqrtO := Cobyqa.Tcg.checkedSqrtUp proposeSqrtUp, tiny := 0, rtol := 1 / 100000000,
           nsOf := fun t => (17 * t + 3).floor.toNat }
       -- `tcgFullFast` = (`tcgFull`, `boundary_reached`): Props/C15ImproveFast.lean
       let r := Cobyqa.Tcg.tcgFullFast P Q R fuel fuel2 imp
@@ -557,7 +565,7 @@ def doCauchy2 (n fuel : ℕ) (parts : List String) : String :=
       if k.size ≠ 1 || g.size ≠ n || H.size ≠ n * n || lo.size ≠ n || hi.size ≠ n || d.size ≠ 1 then "bad-op" else
       let P : Cobyqa.Cauchy.GProb n Rat :=
         { const := k[0]!, g := vecOf g, H := fun i j => H[i.val * n + j.val]!, xl := fun i => lo[i.val]!, xu := fun i => hi[i.val]!, delta := d[0]! }
-      let D : Cobyqa.Cauchy.DParams Rat := { sqrtO := fun x => floatToRat (Float.sqrt (ratToFloat x)), tiny := 0 }
+      let D : Cobyqa.Cauchy.DParams Rat := { sqrtO := Cobyqa.Tcg.checkedSqrtUp proposeSqrtUp, tiny := 0 }
       let st := Cobyqa.Cauchy.cauchyFull P D fuel
       "ok " ++ " ".intercalate ((listFin n).map fun i => showRat (st i))
     | _, _, _, _, _, _ => "bad-op"
